@@ -19,6 +19,8 @@ def run(rep):
     rep.guard(k4, rep, w)
     rep.guard(k5, rep, w)
     rep.guard(k6, rep, w)
+    import c06
+    rep.guard(c06.s10, rep, w, 'C07')   # nothing a program declares can take the place of the hidden `super` / `self`
     import c18
     rep.guard(c18.q6, rep, w)     # the for loop's implicit it.next() is dispatched like a written one (fields of the instance first)
     import c06
